@@ -2,7 +2,7 @@
 import copy
 import json
 
-from .. import gen, json_ref, model
+from .. import gen, json_ref, model, rt
 from ..core import Acc, Violation, guarded, run_hypothesis, shard_seed
 
 PROPERTY = 'C05'
@@ -119,7 +119,7 @@ def check_doc(case, acc=None):
         for k in plan.used:
             acc.label('spelling:' + k)
     shown = dict(case, json=json.dumps(obj)[:1500])
-    got = guarded('parse-raises', shown, hszinc.parse, inp, mode=hszinc.MODE_JSON, single=single, **kw)
+    got = guarded('parse-raises', shown, hszinc.parse, inp, single=single, **dict(kw, **rt.mode_kw('json', len(repr(inp)))))
     if form.startswith('obj'):
         if keep != inp:
             raise Violation('input-modified', shown, 'the caller\'s pre-decoded object was modified by parse')
@@ -156,7 +156,7 @@ def check_scalar(case, acc=None):
     keep = copy.deepcopy(val)
     # parse_scalar(mode=JSON) takes JSON text for strings/arrays/objects and decoded values otherwise
     arg = json.dumps(val) if isinstance(val, (str, list, dict)) else val
-    got = guarded('parse-raises', case, hszinc.parse_scalar, arg, mode=hszinc.MODE_JSON, version=ver)
+    got = guarded('parse-raises', case, hszinc.parse_scalar, arg, version=ver, **rt.mode_kw('json', len(repr(arg))))
     if keep != val and not (isinstance(val, float) and val != val):
         raise Violation('input-modified', case, 'parse_scalar modified its input')
     d = model.diff(model.normalise(m), model.to_model(got))
